@@ -276,6 +276,9 @@ func c15Goroutines() c15Dump {
 		if k := strings.Index(st, ","); k >= 0 {
 			st = st[:k]
 		}
+		if strings.Contains(g, "(*c15Gate).Handle") {
+			continue // parked by the harness on purpose: counts as idle
+		}
 		if st != "select" && st != "IO wait" {
 			d.busy++
 			if d.example == "" {
